@@ -52,6 +52,7 @@ static inline myth_thread_t get_new_myth_thread_struct_desc(myth_running_env_t e
 #endif
   void * v_ret = myth_freelist_pop(&env->freelist_desc);
   if (v_ret){
+    MYTH_VERIF_ALLOC(mythv_k_desc, v_ret, sizeof(struct myth_thread), env->rank);
     return v_ret;
   } else {
     //Allocate
@@ -92,6 +93,7 @@ static inline myth_thread_t get_new_myth_thread_struct_desc(myth_running_env_t e
     env->prof_data.daddlist_cycles += t3 - t2;
 #endif
   }
+  MYTH_VERIF_ALLOC(mythv_k_desc, ret, sizeof(struct myth_thread), env->rank);
   return ret;
 #else
   myth_thread_t ret;
@@ -174,10 +176,12 @@ th_ptr -> 4080-4087:
     th_ptr += size_in_bytes - (sizeof(void*) * 2);
     uintptr_t *blk_size = (uintptr_t*) (th_ptr + sizeof(void*));
     *blk_size = size_in_bytes;
+    MYTH_VERIF_ALLOC(mythv_k_stack, th_ptr, size_in_bytes, env->rank);
     return th_ptr;
   }
   void * ret = myth_freelist_pop(&env->freelist_stack);
   if (ret) {
+    MYTH_VERIF_ALLOC(mythv_k_stack, ret, 0, env->rank);
     return ret;
   } else {
     //Allocate
@@ -229,6 +233,7 @@ th_ptr -> 4080-4087:
     env->prof_data.saddlist_cycles += t3 - t2;
 #endif /* MYTH_ALLOC_PROF */
   }
+  MYTH_VERIF_ALLOC(mythv_k_stack, ret, 0, env->rank);
   return ret;
 #else
   return NULL;
@@ -274,6 +279,7 @@ static inline void free_myth_thread_struct_desc(myth_running_env_t e,myth_thread
   myth_spin_unlock_body(&th->sanity_check);
 #endif
   //Add to a freelist
+  MYTH_VERIF_FREE(mythv_k_desc, th, sizeof(struct myth_thread), e->rank);
   myth_freelist_push(&e->freelist_desc,(void*)th);
 #else
   myth_assert(th);
@@ -303,6 +309,7 @@ static inline void free_myth_thread_struct_stack(myth_running_env_t e,myth_threa
     ptr = (void**)th->stack;
 
     uintptr_t *blk_size = (uintptr_t*)(((uint8_t*)ptr) + sizeof(void*));
+    MYTH_VERIF_FREE(mythv_k_stack, ptr, (size_t)(*blk_size), e->rank);
     if (*blk_size == 0) {
       myth_freelist_push(&e->freelist_stack, ptr);
     } else {
@@ -596,6 +603,11 @@ static inline int myth_join_body(myth_thread_t th,void **result) {
     myth_dprintf("myth_join:join thread (%p) is already finished. Return immediately\n",th);
 #endif
     myth_spin_unlock_body(&th->lock);
+#ifdef MYTH_VERIF
+    while (th->status != MYTH_STATUS_FREE_READY2) {
+      MYTH_VERIF_SPIN(mythv_p_status_wait, th->status);
+    }
+#endif
     while (th->status != MYTH_STATUS_FREE_READY2);
 #if MYTH_JOIN_PROF_DETAIL
     if (result) *result = th->result;
@@ -663,6 +675,11 @@ static inline int myth_join_body(myth_thread_t th,void **result) {
   //Get return value
   myth_spin_unlock_body(&th->lock);
 #endif
+#ifdef MYTH_VERIF
+  while (th->status != MYTH_STATUS_FREE_READY2) {
+    MYTH_VERIF_SPIN(mythv_p_status_wait, th->status);
+  }
+#endif
   while (th->status != MYTH_STATUS_FREE_READY2) { }
   // use myth_get_current_env_noinline here to prevent compiler from sharing
   // the same g_worker_rank before and after context switching
@@ -690,6 +707,11 @@ static inline int myth_tryjoin_body(myth_thread_t th,void **result) {
   //If target is finished, return
   if (myth_desc_is_finished(th)){
     myth_spin_unlock_body(&th->lock);
+#ifdef MYTH_VERIF
+    while (th->status != MYTH_STATUS_FREE_READY2) {
+      MYTH_VERIF_SPIN(mythv_p_status_wait, th->status);
+    }
+#endif
     while (th->status != MYTH_STATUS_FREE_READY2) { }
     myth_join_1(env,th,result);
     //myth_log_add(env,MYTH_LOG_USER);
@@ -855,6 +877,7 @@ static inline int myth_create_join_many_ex_body(myth_thread_t * ids,
 
 static inline int myth_detach_body(myth_thread_t th)
 {
+  MYTH_VERIF_POINT(mythv_p_detach_check, th->status);
   if (th->status==MYTH_STATUS_FREE_READY2){
     //If a thread is finished, just release resource
     free_myth_thread_struct_desc(myth_get_current_env(),th);
@@ -864,6 +887,11 @@ static inline int myth_detach_body(myth_thread_t th)
   myth_spin_lock_body(&th->lock);
   if (myth_desc_is_finished(th)){//If a thread is finished, release resource
     myth_spin_unlock_body(&th->lock);
+#ifdef MYTH_VERIF
+    while (th->status != MYTH_STATUS_FREE_READY2) {
+      MYTH_VERIF_SPIN(mythv_p_status_wait, th->status);
+    }
+#endif
     while (th->status!=MYTH_STATUS_FREE_READY2);
     free_myth_thread_struct_desc(myth_get_current_env(),th);
   }
@@ -1116,6 +1144,7 @@ MYTH_CTX_CALLBACK void myth_entry_point_1(void *arg1,void *arg2,void *arg3)
     myth_spin_unlock_body(&this_thread->lock);
     this_thread->status = MYTH_STATUS_FREE_READY2;
 #else
+    MYTH_VERIF_POINT(mythv_p_status_store, this_thread->status);
     this_thread->status=MYTH_STATUS_FREE_READY2;
     myth_spin_unlock_body(&this_thread->lock);
 #endif
@@ -1165,6 +1194,7 @@ MYTH_CTX_CALLBACK void myth_entry_point_2(void *arg1,void *arg2,void *arg3)
     myth_spin_unlock_body(&this_thread->lock);
     this_thread->status=MYTH_STATUS_FREE_READY2;
 #else
+    MYTH_VERIF_POINT(mythv_p_status_store, this_thread->status);
     this_thread->status=MYTH_STATUS_FREE_READY2;
     myth_spin_unlock_body(&this_thread->lock);
 #endif
